@@ -72,6 +72,13 @@ class SimLoop(asyncio.BaseEventLoop):
         self.aborting = False      # set once SimDeadlock / IterationCap has been raised
         if self.cfg.eager:
             self.set_task_factory(asyncio.eager_task_factory)
+        self.handler_calls = []    # contexts passed to the loop's exception handler (not printed)
+        self.set_exception_handler(self._collect_exception)
+
+    def _collect_exception(self, loop, context):
+        self.stats["loop_exception_handler"] += 1
+        if len(self.handler_calls) < 20:
+            self.handler_calls.append(f"{context.get('message')}: {context.get('exception')!r}")
 
     # -- clock ---------------------------------------------------------------------------
     def time(self):
